@@ -49,14 +49,17 @@ def run(tier, seed, replay=None):
     coq_cases, coq_expect = [], []
     orig_maxvol = ip._maxvol
     for i in range(n):
-        N, f, kind = targets(rng, torch)
+        N, f0, kind = targets(rng, torch)
         d = len(N)
+        scale = rng.choice([1.0, 1.0, 1.0, 1e-9, 1e-6, 1e5])        # the tolerance is relative: the data's magnitude must not matter
+        f = (lambda I, f0=f0, scale=scale: scale * f0(I)) if scale != 1.0 else f0
         eps = rng.choice([1e-10, 1e-8, 1e-6, 1e-4, 1e-3])
         start = None
         if rng.random() < 0.2: start = torchtt.randn(N, [1] + [rng.randint(1, 3)] * (d - 1) + [1], dtype=torch.float64)
         sd = rng.randrange(1 << 30); torch.manual_seed(sd)
-        desc = {"routine": "dmrg_cross", "N": N, "target": kind, "eps": eps, "torch_seed": sd, "start": start is not None}
+        desc = {"routine": "dmrg_cross", "N": N, "target": kind, "eps": eps, "torch_seed": sd, "start": start is not None, "scale": scale}
         dist["dmrg_cross:" + kind] = dist.get("dmrg_cross:" + kind, 0) + 1
+        dist["scale:%g" % scale] = dist.get("scale:%g" % scale, 0) + 1
         if i % 15 == 0 and len(samples) < 5: samples.append(desc)
         events = []
         def spy_f(I):
@@ -185,7 +188,7 @@ def run(tier, seed, replay=None):
             else: n_coq += 1
     nviol = V.finish()
     cov = proofcheck.coverage(PID, obl, evaluations=n + n // 2, distinct_nontrivial=n_struct,
-        rule=("dmrg_cross on smooth (1/(c+sum i)), separable and exact-rank (2..4 terms) targets of order 2..5 with mode sizes 2..20 (sizes below rank+kick included), eps 1e-10..1e-3, "
+        rule=("dmrg_cross on smooth (1/(c+sum i)), separable and exact-rank (2..4 terms) targets of order 2..5 with mode sizes 2..20 (sizes below rank+kick included), eps 1e-10..1e-3, data magnitudes 1e-9..1e5, "
               "random seeds, optional starting tensor; function_interpolate with one or two argument tensors; the user function and maxvol are wrapped: EVERY index matrix is checked "
               "(integer M x d, column k in [0, N[k])), compared with the model's eval_rows of the index sets it displays (also evaluated in Coq on a subset), and consecutive index sets "
               "are checked to be left_update / right_update of the recorded maxvol pivots; value matrices of function_interpolate must consist of entries of the argument tensors; "
